@@ -179,7 +179,13 @@ var c04Pairs = [][3]string{
 	{"Authorization", "Bearer abc", "Bearer abd"},
 	{"Authorization", "Bearer abc", "Bearer ABC"},
 	{"Authorization", "Basic abc", "Bearer abc"},
+	{"Authorization", `OAuth realm="api", oauth_token="alice"`, `OAuth realm="api", oauth_token="bob"`},
+	{"Authorization", `Digest username="u", response="aaaa"`, `Digest username="u", response="bbbb"`},
+	{"Authorization", "AWS4-HMAC-SHA256 Credential=a, Signature=1", "AWS4-HMAC-SHA256 Credential=a, Signature=2"},
 	{"User-Agent", "agent/1", "agent/2"},
+	{"User-Agent", "agent/1 (x; y) lib/2", "agent/1 (x; y) lib/3"},
+	{"Accept", "text/html; level=1", "text/html; level=2"},
+	{"Accept-Language", "en-US", "en-GB"},
 	{"Cookie", "a=1", "a=2"},
 	{"Cookie", "a=1; b=2", "a=1"},
 	{"X-A", "1", "10"},
